@@ -275,7 +275,7 @@ theorem C39_dispatch_unconfirmed_dpos_false :
         matchTxAndUpdate mm f tx = some (true, g) →
         ∃ g', matchUnconfirmed mm .dpos f tx t = some (true, g') := by
   intro h
-  obtain ⟨g', hg⟩ := h Murmur3.murmur3 ⟨[0xff], 1, 0, []⟩ ⟨[1], 2, [[7]], []⟩ ⟨2, 9, false, 0⟩ ⟨[0xff], 1, 0, []⟩
+  obtain ⟨g', hg⟩ := h Murmur3.murmur3 ⟨[0xff], 1, 0, []⟩ ⟨[1], 2, [[7]], []⟩ ⟨2, 9, false, 0, false⟩ ⟨[0xff], 1, 0, []⟩
     (by decide) (by decide)
   simp [matchUnconfirmed, tIllegalProposal, tIllegalVote, tIllegalBlock, tIllegalSidechain, tInactiveArbitrators] at hg
 
